@@ -230,7 +230,11 @@ var verifSkeletons = []map[string]any{
 var verifDeviations = []any{nil, true, 0.0, -1.0, 1.5, 1e300, 18446744073709551616.0, "", "text", "\x1b[31m", "https://offline.invalid/x", "/relative", "http://[::1", "not a date", "text/plain", []any{}, []any{nil}, []any{"a", 1.0, map[string]any{}},
 	map[string]any{}, map[string]any{"type": "Note"}, map[string]any{"type": "Person"}, map[string]any{"type": "Person", "name": "no id"}, map[string]any{"id": "https://offline.invalid/z"},
 	map[string]any{"type": "Link"}, map[string]any{"type": "Link", "href": 7.0}, map[string]any{"type": "Collection", "items": "https://offline.invalid/single"}, map[string]any{"type": "Create"},
-	map[string]any{"type": "Note", "id": "https://other.invalid/foreign", "content": "foreign"}, []any{map[string]any{"type": "Person", "name": "first without id"}, map[string]any{"type": "Person", "id": "https://offline.invalid/a2", "name": "second"}}}
+	map[string]any{"type": "Note", "id": "https://other.invalid/foreign", "content": "foreign"},
+	/* post-like objects that are refused for another reason than their type: deleted, or written by somebody elsewhere */
+	map[string]any{"type": "Tombstone", "id": "https://offline.invalid/gone", "formerType": "Note"},
+	map[string]any{"type": "Tombstone", "formerType": "Note", "deleted": "2024-01-02T03:04:05Z"},
+	map[string]any{"type": "Note", "id": "https://offline.invalid/n9", "content": "x", "attributedTo": map[string]any{"type": "Person", "id": "https://elsewhere.invalid/a", "name": "elsewhere"}}, []any{map[string]any{"type": "Person", "name": "first without id"}, map[string]any{"type": "Person", "id": "https://offline.invalid/a2", "name": "second"}}}
 
 /* stress bodies: every nesting unit at the depth that keeps the document at a few kilobytes */
 func verifStressBodies() [][2]string {
